@@ -466,7 +466,6 @@ func runC17(c *mc.Ctx) {
 	c.Assume("strconv.ParseFloat is correctly rounded (trusted base; cross-checked against math/big.Rat on [0,2^10], the top 2^10 amounts and around 2^m, all 25 exponents, at start)")
 	c.Assume("the float64 product f*1e8 computed by the harness equals the one computed inside NewAmount (amd64, no fused multiply-add across the call)")
 	c.Assume("outside the bound: amounts between the enumerated windows (2.1e15 amounts cannot all be visited); |a| > 2.1e15; floats whose product is not within a few ulps of an enumerated integer or half-integer; MulF64 results (not in the statement, no-panic only)")
-	c.Note("unit_exponents_below_-8", "exponents -12..-9 are evaluated on the same initial segment [0,base] but on narrower windows (radius/64, top window/1024) than exponents -8..12: on the unchanged tree 50-100% of the evaluations fail for amounts above about 2^39 (a*10^4 exceeds 2^53), and recording every failing case of the wide windows (about 8e6 on quick) would cost more than the check itself")
 
 	// self-check of the trusted base
 	for _, a := range func() []int64 {
@@ -491,9 +490,9 @@ func runC17(c *mc.Ctx) {
 		}
 	}
 
-	// (A) integer side, exponents -8..12, round trip, String
+	// (A) integer side, every unit exponent -12..12, round trip, String
 	full := c17Amounts(mc.Pick[int64](c, 1<<22, 1<<24), mc.Pick[int64](c, 1<<12, 1<<15), mc.Pick[int64](c, 1<<20, 1<<23))
-	c.Space("amounts (both signs): [0,base] + windows around 2^m, 10^e, whole-coin amounts nearest 2^m + top window below 2.1e15; each with round trip, String and 21 unit exponents -8..12", 2*full.n-1)
+	c.Space("amounts (both signs): [0,base] + windows around 2^m, 10^e, whole-coin amounts nearest 2^m + top window below 2.1e15; each with round trip, String and 25 unit exponents -12..12", 2*full.n-1)
 	c.ParFor(2*full.n, func(w *mc.W, i int64) {
 		a := full.at(i / 2)
 		if i%2 == 1 {
@@ -504,22 +503,67 @@ func runC17(c *mc.Ctx) {
 		}
 		w.State()
 		c17EvalAmt(w, c17Amt{A: a})
-		c17UnitsOf(w, a, -8, 12)
+		c17UnitsOf(w, a, -12, 12)
 	})
-	// (B) integer side, exponents -12..-9
-	small := c17Amounts(mc.Pick[int64](c, 1<<22, 1<<24), mc.Pick[int64](c, 1<<6, 1<<8), mc.Pick[int64](c, 1<<10, 1<<12))
-	c.Space("amounts (both signs) for unit exponents -12..-9: same [0,base], smaller window radii; each with 4 exponents", 2*small.n-1)
-	c.ParFor(2*small.n, func(w *mc.W, i int64) {
-		a := small.at(i / 2)
-		if i%2 == 1 {
-			if a == 0 {
-				return
-			}
-			a = -a
+	// (B) amounts whose decimal digits are sparse: a formatter or divider that works on groups of
+	// digits goes wrong on a group of zeros or nines at a particular offset.  Every amount <= cap with
+	// at most 3 non-zero digits from {1,5,9}, and every amount that is all nines (1..15 of them) with
+	// at most 2 digits replaced by {0,8}.
+	{
+		var sp []int64
+		pow := make([]int64, 17)
+		pow[0] = 1
+		for i := 1; i < 17; i++ {
+			pow[i] = pow[i-1] * 10
 		}
-		w.State()
-		c17UnitsOf(w, a, -12, -9)
-	})
+		ds := []int64{1, 5, 9}
+		for p1 := 0; p1 < 16; p1++ {
+			for _, d1 := range ds {
+				a1 := d1 * pow[p1]
+				sp = append(sp, a1)
+				for p2 := 0; p2 < p1; p2++ {
+					for _, d2 := range ds {
+						a2 := a1 + d2*pow[p2]
+						sp = append(sp, a2)
+						for p3 := 0; p3 < p2; p3++ {
+							for _, d3 := range ds {
+								sp = append(sp, a2+d3*pow[p3])
+							}
+						}
+					}
+				}
+			}
+		}
+		for L := 1; L <= 16; L++ {
+			nines := pow[L] - 1
+			sp = append(sp, nines)
+			for p1 := 0; p1 < L; p1++ {
+				for _, d1 := range []int64{9, 1} { // subtract 9 (-> 0) or 1 (-> 8)
+					a1 := nines - d1*pow[p1]
+					sp = append(sp, a1)
+					for p2 := 0; p2 < p1; p2++ {
+						sp = append(sp, a1-9*pow[p2])
+					}
+				}
+			}
+		}
+		var keep []int64
+		for _, a := range sp {
+			if a >= 0 && a <= c17Cap {
+				keep = append(keep, a)
+			}
+		}
+		c.Space("amounts (both signs) with sparse decimal digits (<= 3 non-zero digits of {1,5,9}; all nines with <= 2 digits replaced), each with round trip, String and 25 unit exponents", int64(2*len(keep)))
+		c.ParFor(int64(2*len(keep)), func(w *mc.W, i int64) {
+			a := keep[i/2]
+			if i%2 == 1 {
+				a = -a
+			}
+			w.State()
+			c17EvalAmt(w, c17Amt{A: a})
+			c17UnitsOf(w, a, -12, 12)
+		})
+	}
 	c.Sample("amt", c17Amt{A: c17Cap - 1})
 	c.Sample("unit", c17Unit{A: 123456789, Unit: -3})
 	c.Sample("unit", c17Unit{A: -c17Cap + 1, Unit: 12})
